@@ -327,3 +327,187 @@ def fault_handler_roundtrip(cc: EnumOf(ConditionCode), hc: EnumOf(FaultHandlerCo
     c = FaultHandlerOverrideTlv.from_tlv(CfdpTlv.unpack(raw + suffix))
     ensures("from_tlv", both(c.condition_code == cc, c.handler_code == hc, c.pack() == raw, c.packet_len == 3, c == a))
     ensures("strict-prefix-refused", outcome(FaultHandlerOverrideTlv.unpack, raw[0:cut]).raised(ValueError))
+
+
+# ------------------------------------------------------------------------------------------------ filestore request (00) / response (01)
+# File names are abstract strings: a name *is* its UTF-8 octets, len(name) is an uninterpreted character count.
+
+def fs_value_len(action, b1, b2):
+    """octets of the request value field: action octet + LV(s)"""
+    if fs_second_name(action):
+        return 1 + 1 + len(b1) + 1 + len(b2)
+    return 1 + 1 + len(b1)
+
+
+@obligation(["C08"], "FileStoreRequestTlv.pack", verifies=[T + "FileStoreRequestTlv.__init__", T + "FileStoreRequestTlv.pack",
+                                                            T + "FileStoreRequestTlv.packet_len", T + "FileStoreRequestBase._common_packer",
+                                                            T + "FileStoreRequestBase.common_packet_len", T + "FileStoreRequestTlv._build_tlv"])
+def fs_request_pack(action: EnumOf(FilestoreActionCode), n1: StrLen(255), n2: StrLen(255)):
+    a = FileStoreRequestTlv(action, n1, n2)
+    b1 = n1.encode()
+    b2 = n2.encode()
+    requires(fs_value_len(action, b1, b2) <= 255)
+    o = outcome(a.pack)
+    ensures("accepted", o.ok)
+    if o.ok:
+        r = o.value
+        ensures("layout", r == fs_request_octets(action, b1, b2))
+        ensures("packet_len-octets", a.packet_len == len(r))
+        ensures("views", both(a.tlv_type == TlvType.FILESTORE_REQUEST, a.value == r[2:len(r)]))
+        ensures("pack-twice", a.pack() == r)
+
+
+@obligation(["C08"], "FileStoreRequestTlv.pack/too-long", verifies=[T + "FileStoreRequestTlv.pack"])
+def fs_request_too_long(action: EnumOf(FilestoreActionCode), n1: Str, n2: Str):
+    """values longer than 255 octets are refused (the value field is the action octet and the name LVs)"""
+    a = FileStoreRequestTlv(action, n1, n2)
+    requires(fs_value_len(action, n1.encode(), n2.encode()) > 255)
+    o = outcome(a.pack)
+    ensures("refused", o.raised(ValueError))
+
+
+@obligation(["C08"], "FileStoreResponseTlv.pack", verifies=[T + "FileStoreResponseTlv.__init__", T + "FileStoreResponseTlv.pack",
+                                                             T + "FileStoreResponseTlv.packet_len", T + "FileStoreRequestBase._common_packer",
+                                                             T + "FileStoreRequestBase.common_packet_len", T + "FileStoreResponseTlv._build_tlv",
+                                                             T + "map_enum_status_code_to_int"])
+def fs_response_pack(action: EnumOf(FilestoreActionCode), status: EnumOf(FilestoreResponseStatusCode), n1: StrLen(255), n2: StrLen(255),
+                     msg: BytesLen(0, 255)):
+    requires(status != FilestoreResponseStatusCode.INVALID)
+    requires(status // 16 == action)      # "every action code with the matching status codes"
+    a = FileStoreResponseTlv(action, status, n1, n2, CfdpLv(msg))
+    b1 = n1.encode()
+    b2 = n2.encode()
+    requires(fs_value_len(action, b1, b2) + 1 + len(msg) <= 255)
+    o = outcome(a.pack)
+    ensures("accepted", o.ok)
+    if o.ok:
+        r = o.value
+        ensures("layout", r == fs_response_octets(action, status % 16, b1, b2, msg))
+        ensures("packet_len-octets", a.packet_len == len(r))
+        ensures("views", both(a.tlv_type == TlvType.FILESTORE_RESPONSE, a.value == r[2:len(r)]))
+        ensures("pack-twice", a.pack() == r)
+
+
+@obligation(["C08"], "FileStoreResponseTlv.pack/too-long", verifies=[T + "FileStoreResponseTlv.pack"])
+def fs_response_too_long(action: EnumOf(FilestoreActionCode), status: EnumOf(FilestoreResponseStatusCode), n1: Str, n2: Str,
+                         msg: BytesLen(0, 255)):
+    requires(status != FilestoreResponseStatusCode.INVALID)
+    requires(status // 16 == action)
+    a = FileStoreResponseTlv(action, status, n1, n2, CfdpLv(msg))
+    requires(fs_value_len(action, n1.encode(), n2.encode()) + 1 + len(msg) > 255)
+    o = outcome(a.pack)
+    ensures("refused", o.raised(ValueError))
+
+
+@obligation(["C08"], "FileStoreResponseTlv.pack/default-msg", verifies=[T + "FileStoreResponseTlv.__init__"])
+def fs_response_pack_default_msg(action: EnumOf(FilestoreActionCode), status: EnumOf(FilestoreResponseStatusCode), n1: StrLen(100), n2: StrLen(100)):
+    requires(status != FilestoreResponseStatusCode.INVALID)
+    requires(status // 16 == action)
+    a = FileStoreResponseTlv(action, status, n1, n2)
+    r = a.pack()
+    ensures("layout", r == fs_response_octets(action, status % 16, n1.encode(), n2.encode(), bytes()))
+    ensures("packet_len-octets", a.packet_len == len(r))
+
+
+@obligation(["C08", "C09", "C10"], "FileStoreRequestTlv.unpack", verifies=[T + "FileStoreRequestTlv.unpack", T + "FileStoreRequestTlv._set_fields",
+                                                                           T + "FileStoreRequestBase._common_unpacker",
+                                                                           T + "FileStoreRequestBase._check_raw_tlv_field"])
+def fs_request_unpack(data: Bytes):
+    o = outcome(FileStoreRequestTlv.unpack, data)
+    ensures("raises-only", o.ok or o.raised(ValueError, TlvTypeMissmatch))
+    ensures("short-refused", implies(len(data) < 4, not o.ok))
+    if len(data) >= 2:
+        n = data[1]
+        ensures("incomplete-refused", implies(len(data) < n + 2, not o.ok))
+        ensures("foreign-type-refused", implies(both(tlv_type_known(data[0]), data[0] != 0), o.raised(TlvTypeMissmatch)))
+        if o.ok:
+            g = o.value
+            ensures("type", both(data[0] == 0, g.tlv_type == TlvType.FILESTORE_REQUEST))
+            ensures("action", both(g.action_code == bits(data[2], 7, 4), fs_action_known(bits(data[2], 7, 4))))
+            k = data[3]
+            ensures("first-name-inside-value", 2 + k <= n)
+            ensures("first-name", g.first_file_name.encode() == data[4:4 + k])
+            p = outcome(FileStoreRequestTlv.unpack, data[0:2 + n])
+            ensures("prefix-only", p.ok)
+            if p.ok:
+                ensures("prefix-only-same", same_state(g, p.value))
+
+
+@obligation(["C08", "C09", "C10"], "FileStoreResponseTlv.unpack", verifies=[T + "FileStoreResponseTlv.unpack", T + "FileStoreResponseTlv._set_fields",
+                                                                            T + "FileStoreRequestBase._common_unpacker",
+                                                                            T + "FileStoreRequestBase._check_raw_tlv_field"])
+def fs_response_unpack(data: Bytes):
+    o = outcome(FileStoreResponseTlv.unpack, data)
+    ensures("raises-only", o.ok or o.raised(ValueError, TlvTypeMissmatch))
+    ensures("short-refused", implies(len(data) < 5, not o.ok))
+    if len(data) >= 2:
+        n = data[1]
+        ensures("incomplete-refused", implies(len(data) < n + 2, not o.ok))
+        ensures("foreign-type-refused", implies(both(tlv_type_known(data[0]), data[0] != 1), o.raised(TlvTypeMissmatch)))
+        if o.ok:
+            g = o.value
+            ensures("type", both(data[0] == 1, g.tlv_type == TlvType.FILESTORE_RESPONSE))
+            ensures("action", both(g.action_code == bits(data[2], 7, 4), fs_action_known(bits(data[2], 7, 4))))
+            ensures("status", both(g.status_code == data[2], kind_of(g.status_code) == "FilestoreResponseStatusCode"))
+            k = data[3]
+            ensures("first-name-inside-value", 3 + k <= n)
+            ensures("first-name", g.first_file_name.encode() == data[4:4 + k])
+            p = outcome(FileStoreResponseTlv.unpack, data[0:2 + n])
+            ensures("prefix-only", p.ok)
+            if p.ok:
+                ensures("prefix-only-same", same_state(g, p.value))
+
+
+@obligation(["C08", "C09", "C10"], "FileStoreRequestTlv/roundtrip", verifies=[T + "FileStoreRequestTlv.unpack", T + "FileStoreRequestTlv.from_tlv"])
+def fs_request_roundtrip(action: EnumOf(FilestoreActionCode), n1: StrLen(255), n2: StrLen(255), suffix: Bytes, cut: Int):
+    a = FileStoreRequestTlv(action, n1, n2)
+    requires(fs_value_len(action, n1.encode(), n2.encode()) <= 255)
+    raw = a.pack()
+    o = outcome(FileStoreRequestTlv.unpack, raw + suffix)
+    ensures("accepted", o.ok)
+    if o.ok:
+        g = o.value
+        ensures("same-parameters", both(g.action_code == action, g.first_file_name == n1,
+                                        implies(fs_second_name(action), g.second_file_name == n2)))
+        ensures("kind", kind_of(g.action_code) == "FilestoreActionCode")
+        ensures("consumes-length-plus-2", g.packet_len == len(raw))
+        ensures("repack", g.pack() == raw)
+        ensures("equal", g == a)
+    c = outcome(FileStoreRequestTlv.from_tlv, CfdpTlv.unpack(raw + suffix))
+    ensures("from_tlv-accepted", c.ok)
+    if c.ok:
+        ensures("from_tlv", both(c.value.action_code == action, c.value.first_file_name == n1,
+                                 implies(fs_second_name(action), c.value.second_file_name == n2), c.value.pack() == raw,
+                                 c.value.packet_len == len(raw)))
+    requires(0 <= cut)
+    requires(cut < len(raw))
+    ensures("strict-prefix-refused", outcome(FileStoreRequestTlv.unpack, raw[0:cut]).raised(ValueError))
+
+
+@obligation(["C08", "C09", "C10"], "FileStoreResponseTlv/roundtrip", verifies=[T + "FileStoreResponseTlv.unpack", T + "FileStoreResponseTlv.from_tlv"])
+def fs_response_roundtrip(action: EnumOf(FilestoreActionCode), status: EnumOf(FilestoreResponseStatusCode), n1: StrLen(255), n2: StrLen(255),
+                          msg: BytesLen(0, 255), suffix: Bytes, cut: Int):
+    requires(status != FilestoreResponseStatusCode.INVALID)
+    requires(status // 16 == action)
+    a = FileStoreResponseTlv(action, status, n1, n2, CfdpLv(msg))
+    requires(fs_value_len(action, n1.encode(), n2.encode()) + 1 + len(msg) <= 255)
+    raw = a.pack()
+    o = outcome(FileStoreResponseTlv.unpack, raw + suffix)
+    ensures("accepted", o.ok)
+    if o.ok:
+        g = o.value
+        ensures("same-parameters", both(g.action_code == action, g.status_code == status, g.first_file_name == n1,
+                                        implies(fs_second_name(action), g.second_file_name == n2), g.filestore_msg.value == msg))
+        ensures("kind", both(kind_of(g.action_code) == "FilestoreActionCode", kind_of(g.status_code) == "FilestoreResponseStatusCode"))
+        ensures("consumes-length-plus-2", g.packet_len == len(raw))
+        ensures("repack", g.pack() == raw)
+        ensures("equal", g == a)
+    c = outcome(FileStoreResponseTlv.from_tlv, CfdpTlv.unpack(raw + suffix))
+    ensures("from_tlv-accepted", c.ok)
+    if c.ok:
+        ensures("from_tlv", both(c.value.action_code == action, c.value.status_code == status, c.value.first_file_name == n1,
+                                 implies(fs_second_name(action), c.value.second_file_name == n2), c.value.filestore_msg.value == msg,
+                                 c.value.pack() == raw, c.value.packet_len == len(raw)))
+    requires(0 <= cut)
+    requires(cut < len(raw))
+    ensures("strict-prefix-refused", outcome(FileStoreResponseTlv.unpack, raw[0:cut]).raised(ValueError))
